@@ -24,8 +24,9 @@ Here (session 9):
   are well bracketed and whose edges lie in a certified graph: no reachable deadlock.
 * `node_ops_deadlock_free`: instantiated at the regenerated node + chain table.
 
-NOT covered: api/ handlers and servers/src/grin/sync/* are not translated (see the generator's
-header); p2p's own locks (`!callback` = a call into `Peers`); text-level translation as before. -/
+NOT covered: api/ handlers are not translated (see the generator's header); the locks inside one `Peer`
+(send_handle / stop_handle Mutexes, connection channels); text-level translation as before.
+Increment 2: servers/src/grin/sync/* and p2p/src/peers.rs (`impl Peers`) are inside the table. -/
 namespace GV.Props.C17Node
 open GV GV.Conc GV.Gen
 
@@ -36,41 +37,84 @@ def fullNodeTable : List (String × List NodeEv) := nodeTable ++ chainTableN
 
 /-- every entry releases only what it holds and ends holding nothing -/
 theorem node_table_bracketed : ∀ e ∈ fullNodeTable, bracketedFrom [] e.2 = true := by
-  decide +kernel
+  -- decided per generated table (the kernel's evaluation depth grows with the list)
+  have h1 : nodeTable.all (fun e => bracketedFrom [] e.2) = true := by decide +kernel
+  have h2 : chainTableN.all (fun e => bracketedFrom [] e.2) = true := by decide +kernel
+  intro e he
+  rcases List.mem_append.mp he with h | h
+  · exact List.all_eq_true.mp h1 e h
+  · exact List.all_eq_true.mp h2 e h
 
-/-- **The order graph of the node is acyclic** (certificate computed from the regenerated graph; no
-hand-written rank).  In particular no entry re-acquires a lock it holds (self-loop), no two entries
-nest two locks in opposite orders (2-cycle), and there is no longer cycle through several entries. -/
-theorem node_order_graph_acyclic : acyclicB (orderGraph fullNodeTable) = true := by
-  decide +kernel
+/-- **The order graph of the node, exactly** - 22 edges: the chain-level order (`deseg < hp < ts < batch < deny`,
+`orph < hidx`), the pool lock OUTSIDE everything it nests with (`pool → hp, ts, batch, deny, reorg, dand, secp`:
+the adapters call `validate_tx` & co. holding `tx_pool`; increment 2: `pool → p2pPeers`, the broadcast of an
+accepted transaction under the pool write lock takes p2p's `Peers.peers`), and `SyncState.current` INSIDE the
+chain locks (`deseg, hp, ts, batch → syncCur`: the status callbacks of `txhashset_write` and of the desegmenter). -/
+def nodeGraph : List (NLock × NLock) :=
+  [(.chain .deseg, .chain .hp), (.chain .deseg, .chain .ts), (.chain .deseg, .chain .batch),
+   (.chain .hp, .chain .ts), (.chain .hp, .chain .batch), (.chain .ts, .chain .batch),
+   (.chain .hp, .chain .deny), (.chain .ts, .chain .deny), (.chain .batch, .chain .deny),
+   (.chain .orph, .chain .hidx),
+   (.chain .deseg, .syncCur), (.chain .hp, .syncCur), (.chain .ts, .syncCur), (.chain .batch, .syncCur),
+   (.pool, .chain .hp), (.pool, .chain .ts), (.pool, .chain .batch), (.pool, .chain .deny),
+   (.pool, .reorg), (.pool, .dand), (.pool, .secp), (.pool, .p2pPeers)]
 
-/-- **The order graph, exactly.**  21 edges: the chain-level order (`deseg < hp < ts < batch < deny`,
-`orph < hidx`), the pool lock OUTSIDE everything it nests with (`pool → hp, ts, batch, deny, reorg,
-dand, secp`: the adapters call `validate_tx` & co. holding `tx_pool`), and `SyncState.current`
-INSIDE the chain locks (`deseg, hp, ts, batch → syncCur`: the status callbacks of `txhashset_write` and
-of the desegmenter).  A change in /repo that adds a nesting (or removes one) breaks this theorem even
-when the graph stays acyclic. -/
-theorem node_order_graph_is :
-    let G : List (NLock × NLock) :=
-      [(.chain .deseg, .chain .hp), (.chain .deseg, .chain .ts), (.chain .deseg, .chain .batch),
-       (.chain .hp, .chain .ts), (.chain .hp, .chain .batch), (.chain .ts, .chain .batch),
-       (.chain .hp, .chain .deny), (.chain .ts, .chain .deny), (.chain .batch, .chain .deny),
-       (.chain .orph, .chain .hidx),
-       (.chain .deseg, .syncCur), (.chain .hp, .syncCur), (.chain .ts, .syncCur), (.chain .batch, .syncCur),
-       (.pool, .chain .hp), (.pool, .chain .ts), (.pool, .chain .batch), (.pool, .chain .deny),
-       (.pool, .reorg), (.pool, .dand), (.pool, .secp)]
-    (∀ e ∈ orderGraph fullNodeTable, e ∈ G) ∧ (∀ e ∈ G, e ∈ orderGraph fullNodeTable) := by
-  decide +kernel
+/-- every edge any entry contributes (over all its acquisitions) is one of the 22 -/
+theorem node_edges_in_graph : ∀ t ∈ fullNodeTable, ∀ e ∈ edgesFrom [] t.2, e ∈ nodeGraph := by
+  have h1 : nodeTable.all (fun t => (edgesFrom [] t.2).all (fun e => nodeGraph.contains e)) = true := by decide +kernel
+  have h2 : chainTableN.all (fun t => (edgesFrom [] t.2).all (fun e => nodeGraph.contains e)) = true := by decide +kernel
+  simp only [List.all_eq_true, List.contains_iff_mem] at h1 h2
+  intro t ht
+  rcases List.mem_append.mp ht with h | h
+  · exact h1 t h
+  · exact h2 t h
+
+/-- … and each of the 22 is contributed by some entry -/
+theorem node_graph_edges_occur : ∀ e ∈ nodeGraph, ∃ t ∈ fullNodeTable, e ∈ edgesFrom [] t.2 := by
+  have h : nodeGraph.all (fun e => nodeTable.any (fun t => (edgesFrom [] t.2).contains e) ||
+      chainTableN.any (fun t => (edgesFrom [] t.2).contains e)) = true := by decide +kernel
+  simp only [List.all_eq_true, Bool.or_eq_true, List.any_eq_true, List.contains_iff_mem] at h
+  intro e he
+  rcases h e he with ⟨t, ht, hm⟩ | ⟨t, ht, hm⟩
+  · exact ⟨t, List.mem_append.mpr (Or.inl ht), hm⟩
+  · exact ⟨t, List.mem_append.mpr (Or.inr ht), hm⟩
+
+/-- **The order graph regenerated from /repo is exactly `nodeGraph`.**  A change in /repo that adds a
+nesting (or removes one) breaks this theorem even when the graph stays acyclic. -/
+theorem node_order_graph_is (e : NLock × NLock) : e ∈ orderGraph fullNodeTable ↔ e ∈ nodeGraph := by
+  rw [mem_orderGraph]
+  constructor
+  · rintro ⟨t, ht, he⟩; exact node_edges_in_graph t ht e he
+  · exact node_graph_edges_occur e
+
+/-- **The order graph of the node is acyclic**: the certificate (longest-path ranks COMPUTED from the graph,
+no hand-written rank) accepts it; hence there is no directed cycle of any length through the entries of the
+table - no re-acquisition (self-loop), no inversion (2-cycle), no longer cycle. -/
+theorem node_order_graph_acyclic :
+    acyclicB nodeGraph = true ∧ ∀ a, ¬ Path (orderGraph fullNodeTable) a a := by
+  have hc : acyclicB nodeGraph = true := by decide +kernel
+  refine ⟨hc, ?_⟩
+  intro a hp
+  have mono : ∀ x y, Path (orderGraph fullNodeTable) x y → Path nodeGraph x y := by
+    intro x y h
+    induction h with
+    | single hab => exact Path.single ((node_order_graph_is _).1 hab)
+    | cons hab _ ih => exact Path.cons ((node_order_graph_is _).1 hab) ih
+  exact acyclicB_no_cycle nodeGraph hc a (mono a a hp)
 
 /-- The pool lock is outermost: no entry acquires it while holding anything — in particular
 `Chain::process_block` reaches `block_accepted` (which write-locks the pool) holding nothing, and no
 pool-facing adapter calls `process_block` under the pool lock.  The `SyncState` locks, `secp`, `reorg`,
-`dand` are leaves: nothing is acquired under them. -/
+`dand` and p2p's locks are leaves: nothing is acquired under them. -/
 theorem pool_outermost_sync_leaves :
     (∀ e ∈ orderGraph fullNodeTable, e.2 ≠ NLock.pool) ∧
     (∀ e ∈ orderGraph fullNodeTable,
-      e.1 ≠ .syncCur ∧ e.1 ≠ .syncErr ∧ e.1 ≠ .syncSegs ∧ e.1 ≠ .secp ∧ e.1 ≠ .reorg ∧ e.1 ≠ .dand) := by
-  decide +kernel
+      e.1 ≠ .syncCur ∧ e.1 ≠ .syncErr ∧ e.1 ≠ .syncSegs ∧ e.1 ≠ .secp ∧ e.1 ≠ .reorg ∧ e.1 ≠ .dand ∧
+      e.1 ≠ .p2pPeers ∧ e.1 ≠ .p2pBlocked ∧ e.1 ≠ .p2pPeerData) := by
+  have h : ∀ e ∈ nodeGraph, e.2 ≠ NLock.pool ∧
+      (e.1 ≠ .syncCur ∧ e.1 ≠ .syncErr ∧ e.1 ≠ .syncSegs ∧ e.1 ≠ .secp ∧ e.1 ≠ .reorg ∧ e.1 ≠ .dand ∧
+       e.1 ≠ .p2pPeers ∧ e.1 ≠ .p2pBlocked ∧ e.1 ≠ .p2pPeerData) := by decide
+  exact ⟨fun e he => (h e ((node_order_graph_is e).1 he)).1, fun e he => (h e ((node_order_graph_is e).1 he)).2⟩
 
 /-- The callback of the chain, resolved: inside a node `Chain::process_block` is the only chain-level
 entry that takes the pool lock (through `ChainToPoolAndNetAdapter::block_accepted`). -/
@@ -79,10 +123,36 @@ theorem only_process_block_takes_pool :
       = ["Chain::process_block"] := by
   decide +kernel
 
-/-- Calls into the p2p layer (`self.peers().…`, the `!callback` marks left at node level) are made
-holding nothing or the pool write lock only — never a chain lock, never a `SyncState` lock. -/
-theorem p2p_calls_hold_at_most_pool :
-    ∀ e ∈ fullNodeTable, marksUnder .callback (fun held => held.all (fun h => decide (h.1 = NLock.pool))) [] e.2 = true := by
+/-- **p2p's own locks** (increment 2: `impl Peers` of p2p/src/peers.rs is translated, `self.peers().op(..)` /
+`self.peers.op(..)` inline `Peers::op`): `Peers.peers`, `Peers.blocked` and the per-peer data locks are acquired
+holding nothing or the pool write lock only - never under a chain lock or a `SyncState` lock - and nothing is
+acquired under them (leaves: `pool_outermost_sync_leaves`).  No unresolved call into `Peers` is left in the
+table (`!callback` marks are gone); what remains outside is a call on a single `Peer` (`send_*`: its
+`send_handle` Mutex and the connection's channel), which the translator does not mark. -/
+theorem p2p_locks_under_at_most_pool :
+    (∀ e ∈ orderGraph fullNodeTable,
+      (e.2 = .p2pPeers ∨ e.2 = .p2pBlocked ∨ e.2 = .p2pPeerData) → e.1 = NLock.pool) ∧
+    (∀ e ∈ fullNodeTable, marksUnder .callback (fun _ => false) [] e.2 = true) := by
+  have h1 : ∀ e ∈ nodeGraph, (e.2 = .p2pPeers ∨ e.2 = .p2pBlocked ∨ e.2 = .p2pPeerData) → e.1 = NLock.pool := by decide
+  have h2 : nodeTable.all (fun e => marksUnder .callback (fun _ => false) [] e.2) = true := by decide +kernel
+  have h3 : chainTableN.all (fun e => marksUnder .callback (fun _ => false) [] e.2) = true := by decide +kernel
+  simp only [List.all_eq_true] at h2 h3
+  refine ⟨fun e he => h1 e ((node_order_graph_is e).1 he), ?_⟩
+  intro e he
+  rcases List.mem_append.mp he with h | h
+  · exact h2 e h
+  · exact h3 e h
+
+/-- The sync runners and the p2p-facing entry points are in the table (increment 2), and the ones that
+move the chain do take its write locks. -/
+theorem sync_and_p2p_entries_present :
+    (∀ n ∈ ["SyncRunner::sync_loop", "HeaderSync::check_run", "BodySync::check_run", "StateSync::check_run",
+            "StateSync::continue_pibd", "Peers::block_received", "Peers::transaction_received",
+            "Peers::headers_received", "Peers::header_received", "Peers::broadcast_transaction",
+            "Peers::broadcast_header", "Peers::ban_peer", "Peers::check_all", "Peers::clean_peers"],
+      (fullNodeTable.lookup n).isSome = true) ∧
+    (∀ n ∈ ["Peers::block_received", "Peers::headers_received", "StateSync::check_run", "SyncRunner::sync_loop"],
+      (fullNodeTable.lookup n).map (fun p => p.any (fun ev => match ev with | .acq (.chain .ts) .W => true | _ => false)) = some true) := by
   decide +kernel
 
 /-- The two generated tables agree: erasing the node-level events from `chainTableN` gives back the
@@ -192,7 +262,7 @@ theorem node_ops_deadlock_free (threads : List (List String))
     (hknown : ∀ th ∈ threads, ∀ n ∈ th, (fullNodeTable.lookup n).isSome = true) (s : State NLock)
     (hr : Reach strictWP (init (threads.map (fun th => (th.map (fun n => (fullNodeTable.lookup n).getD [])).flatten))) s) :
     ¬ Deadlocked strictWP s := by
-  apply GV.Props.C17.deadlock_free (rankOf (computeRank (orderGraph fullNodeTable))) strictWP (fun _ _ _ h => h) _ _ s hr
+  apply GV.Props.C17.deadlock_free (rankOf (computeRank nodeGraph)) strictWP (fun _ _ _ h => h) _ _ s hr
   intro p hp
   simp only [List.mem_map] at hp
   obtain ⟨th, hth, rfl⟩ := hp
@@ -205,8 +275,8 @@ theorem node_ops_deadlock_free (threads : List (List String))
   | some evs =>
     simp only [Option.getD_some]
     have hm := lookup_mem hl
-    exact checkFrom_of_graph _ node_order_graph_acyclic evs (node_table_bracketed (n, evs) hm)
-      (fun e he => edge_mem_orderGraph fullNodeTable n evs hm e he)
+    exact checkFrom_of_graph nodeGraph node_order_graph_acyclic.1 evs (node_table_bracketed (n, evs) hm)
+      (fun e he => node_edges_in_graph (n, evs) hm e he)
 
 /-- non-vacuity of `node_ops_deadlock_free`: a four-thread instance whose ops are all in the table -/
 example : ∀ th ∈ [["NetToChainAdapter::block_received", "NetToChainAdapter::transaction_received"],
